@@ -26,7 +26,7 @@ SHRINK_AFTER_FINALIZE = True
 RULE = (
     "each run: a seeded workload program, 2-3 processes (same keep on a cold store with or without existing "
     "directories; keep vs load of a committed path; keep of changed code vs readers; same or different data "
-    "directories) and a seeded schedule deciding which parked process executes its next file-system operation "
+    "directories; workers forked from a live process that already used the store) and a seeded schedule deciding which parked process executes its next file-system operation "
     "(granularity: stat/lstat/mkdir/open/write-half/close/read/remove/symlink/rename). A run is non-trivial when at "
     "least two processes were pre-empted inside each other's evaluation (>= 2 context switches between their first "
     "and last store operation); distinct = distinct sequence of (process, operation, path class) over the run."
@@ -42,7 +42,7 @@ ASSUMPTIONS = [
     "a load is checked against the set of values committed before it was invoked or by an evaluation concurrent with it (necessary condition of linearizability, no false alarm)",
     "a killed peer (fault) is excluded from the oracles; survivors must still succeed",
 ]
-PROBES = ["reader_pipeline", "reader_between_blob_and_meta", "two_writers_same_blob", "creation_race", "reader_during_relink",
+PROBES = ["forked_workers", "forked_after_first_write", "reader_pipeline", "reader_between_blob_and_meta", "two_writers_same_blob", "creation_race", "reader_during_relink",
           "preempt_in_eval", "kill_peer", "stall", "clock_jump", "different_data_dirs", "three_procs"]
 
 POLICIES = ["random", "sticky", "pct", "rr"]
@@ -51,18 +51,30 @@ POLICIES = ["random", "sticky", "pct", "rr"]
 def gen_case(streams, tier, avoid):
     cfg = streams.get("config")
     rng = streams.get("program")
-    prog = workloads.gen_program(rng, nfun=cfg.randint(2, 4 if tier == "quick" else 6), big=cfg.random() < 0.4)
+    root_kept = cfg.random() < 0.3
+    prog = workloads.gen_program(rng, nfun=cfg.randint(2, 4 if tier == "quick" else 6), big=cfg.random() < 0.4,
+                                 root_kept=root_kept)
     names = sorted(prog["funcs"])
-    fam = cfg.choice(["cold", "cold", "keep_vs_load", "changed_vs_reader", "mixed", "reader_pipeline"])
+    fam = cfg.choice(["cold", "cold", "keep_vs_load", "changed_vs_reader", "mixed", "reader_pipeline", "forked"])
     nprocs = cfg.choice([2, 2, 2, 3] if tier == "quick" else [2, 2, 3, 3, 4])
     setup = 0
     edit = None
     procs = []
     paths = workloads.kept_paths(prog)
+    forked = None
     if fam == "cold":
         setup = 0
         for _ in range(nprocs):
             procs.append({"src": "old", "ops": [["eval"]], "data": "data"})
+    elif fam == "forked":
+        # workers forked from a live process that has configured the store and possibly used it already (the fork
+        # start method of multiprocessing): they inherit its memory image and race on a partly cold store
+        setup = 0
+        leaves = [n for n in names if n != "f0" and prog["funcs"][n]["kind"] == "data"]
+        forked = {"warm": cfg.choice(leaves) if leaves and cfg.random() < 0.75 else None}
+        for _ in range(nprocs):
+            procs.append({"src": "old", "ops": [["eval"]] + ([["load", cfg.choice(paths)]] if cfg.random() < 0.3 else []),
+                          "data": "data"})
     elif fam == "keep_vs_load":
         setup = 1
         edit = {"f": cfg.choice(names)} if cfg.random() < 0.5 else None
@@ -95,13 +107,14 @@ def gen_case(streams, tier, avoid):
             procs.append({"src": cfg.choice(["old", "new"]) if edit else "old", "ops": ops,
                           "data": cfg.choice(["data", "data", "data2"])})
     case = {
-        "prog": prog, "edit": edit, "setup_evals": setup, "procs": procs, "family": fam,
+        "prog": prog, "edit": edit, "setup_evals": setup, "procs": procs, "family": fam, "forked": forked,
         "predirs": cfg.random() < 0.6,     # store directories created during set-up (staged workload family)
         "cache": cfg.choice([None, None, 2]),
         "policy": {"kind": cfg.choice(POLICIES), "seed": cfg.randrange(1 << 30), "p": cfg.choice([0.5, 0.8, 0.95]),
                    "d": cfg.randint(1, 3), "k": cfg.randint(1, 3)},
         "schedule": None,
         "faults": [],
+        "root_style": cfg.choice(["call", "call", "eval"]) if root_kept else "eval",
     }
     f = streams.get("faults")
     if cfg.random() < 0.35:
@@ -224,7 +237,7 @@ def _run(case, root):
                 "invoke_gate": False}]
         for o in ops:
             if o[0] == "eval":
-                out.append({"op": "eval", "entry": entry, "invoke_gate": gates})
+                out.append({"op": case.get("root_style", "eval"), "entry": entry, "invoke_gate": gates})
             elif o[0] == "evalr":
                 out.append({"op": "eval", "entry": rentry, "invoke_gate": gates})
             else:
@@ -272,7 +285,29 @@ def _run(case, root):
     switches = 0
     akey = []
     try:
-        procs = [sim.spawn(job(pc["src"], pc["ops"], pc["data"])) for pc in case["procs"]]
+        if case.get("forked"):
+            probe("forked_workers")
+            warm = case["forked"].get("warm")
+            tjob = job("old", [], "data", gates=False)
+            if warm:
+                wentry = ir.modname(old, "m0") + ":" + warm
+                tjob.append({"op": "call", "entry": wentry, "invoke_gate": False})
+                (rw,), tw = ref_eval(src["old"], [{"entry": wentry}])
+                if rw["res"][0] != "ok":
+                    raise HarnessError(f"reference run of the warm-up failed: {rw['res']}")
+                writes["data"].append((-2, -1, {p: canon(v) for p, v in tw.items()}))
+                probe("forked_after_first_write")
+            tmpl = sim.spawn_template(tjob, len(case["procs"]))
+            sim.run_alone(tmpl)
+            if tmpl.state != "forkserver":
+                raise HarnessError(f"template process ended in state {tmpl.state}")
+            if warm and tmpl.results.get(2, [None])[0] != "ok":
+                violations.append({"oracle": "C07.baseline", "detail": f"sequential warm-up returned {tmpl.results.get(2)}"})
+                return {"violations": violations, "log": log, "nontrivial": False}
+            noop = {"op": "noop", "invoke_gate": False}
+            procs = [sim.fork_from(tmpl, [noop, noop] + job("old", pc["ops"], "data")[2:]) for pc in case["procs"]]
+        else:
+            procs = [sim.spawn(job(pc["src"], pc["ops"], pc["data"])) for pc in case["procs"]]
         step = 0
         last = None
         while True:
@@ -335,6 +370,8 @@ def _run(case, root):
     inv = {}
     for t in sim.trace:
         seq, pid, kind = t[0], t[1], t[2]
+        if pid >= 100:
+            continue        # the template's own (sequential) operations
         if kind == "invoke":
             inv[(pid, t[3])] = seq
         elif kind == "ret":
@@ -543,7 +580,7 @@ def shrink(case):
             yield c
     prog = base["prog"]
     for fn in reversed(sorted(prog["funcs"])):
-        if fn == "f0":
+        if fn == "f0" or (base.get("forked") or {}).get("warm") == fn:
             continue
         c = copy.deepcopy(base)
         del c["prog"]["funcs"][fn]
